@@ -804,7 +804,7 @@ def run(ctx, args):
             return ctx.finish("replay of " + args.replay, level="proof", replay_open=replay_open)
         quick = ctx.tier == "quick"
         part_eviction(ctx, 60 if quick else 1500)
-        for i in range(100 if quick else 2200):
+        for i in range(100 if quick else 1800):
             compare_runs(ctx, gen_program(ctx.rng, ctx.rng.choice([3, 6, 10])))
     finally:
         gc.set_threshold(*state[1])
@@ -824,7 +824,12 @@ def run(ctx, args):
              "reference, serialize) over handles taken from 3 documents with random initial holdings incl. text nodes "
              "without their element, chained text without predecessors, root without document; each run with no "
              "collection, gc.collect() after every call, and gc.set_threshold(1); one evaluation = one (program, mode) run "
-             "compared step by step with the run without collections; distinct by (program, mode).",
+             "compared step by step with the run without collections; distinct by (program, mode). Further modes: every call under "
+             "an always-true ambient filter that runs gc.collect() on every n-th invocation (collections inside callbacks the "
+             "library makes; baseline: the same filter without collecting), and a collection run by a second thread from a "
+             "warnings.showwarning hook fired inside a locked serialization (document with an invalid xml:space). Programs "
+             "also create unreferenced runs of adjacent text nodes behind / inside elements nobody holds, reference the "
+             "document one to three times without holding its root, and observe document.root / node.document.",
         replay_open=replay_open,
         explanation="PARTIAL: theorems cover collections at quiescent points over the modelled reference graph; collections "
                     "inside library calls (threshold-1 runs), CPython's real reference counts and collector scheduling are "
